@@ -1235,6 +1235,14 @@ result_t NumberDataType::parseInput(const string inputStr, unsigned int* parsedV
         if (strEnd == nullptr || strEnd == str || (*strEnd != 0 && *strEnd != '.')) {
           return RESULT_ERR_INVALID_NUM;  // invalid value
         }
+        if (*strEnd == '.') {  // a fraction is ignored, but only a fraction
+          do {
+            strEnd++;
+          } while (*strEnd >= '0' && *strEnd <= '9');
+          if (*strEnd != 0) {
+            return RESULT_ERR_INVALID_NUM;  // invalid value
+          }
+        }
       } else {
         double dvalue = strtod(str, &strEnd);
         if (errno == ERANGE || strEnd == nullptr || strEnd == str || *strEnd != 0 || !isfinite(dvalue)) {
